@@ -162,14 +162,14 @@ func buildAlphabets() (quick, thorough []Op) {
 		// value-setting operation on a, b and c is in this list (setv with a
 		// number, a keyword, a string, a list; setraw; settrav)
 		Op{K: "setraw", N: "a", V: "7"}, Op{K: "setraw", N: "b", V: "7"},
-		Op{K: "copyraw", N: "b", N2: "a"}, Op{K: "copyraw", N: "c", N2: "a"},
+		Op{K: "copyraw", N: "c", N2: "a"},
 		Op{K: "setv", N: "a", V: "t"},
 	)
 	add(root, false,
 		Op{K: "setraw", N: "a", V: "1+2"}, Op{K: "setraw", N: "c", V: "x.y"},
 		Op{K: "setraw", N: "c", V: "7"}, Op{K: "setraw", N: "a", V: "null"}, Op{K: "setraw", N: "b", V: "null"},
 		Op{K: "setraw", N: "a", V: `"q"`}, Op{K: "setraw", N: "b", V: `"q"`},
-		Op{K: "copyraw", N: "a", N2: "b"}, Op{K: "copyraw", N: "a", N2: "c"}, Op{K: "copyraw", N: "a", N2: "a"},
+		Op{K: "copyraw", N: "b", N2: "a"}, Op{K: "copyraw", N: "a", N2: "b"}, Op{K: "copyraw", N: "a", N2: "c"}, Op{K: "copyraw", N: "a", N2: "a"},
 		Op{K: "setv", N: "b", V: "t"}, Op{K: "setv", N: "b", V: "s"}, Op{K: "setv", N: "c", V: "t"}, Op{K: "settrav", N: "b"},
 		Op{K: "ren", N: "b", N2: "c"}, Op{K: "ren", N: "c", N2: "b"}, Op{K: "ren", N: "b", N2: "b"}, Op{K: "ren", N: "c", N2: "c"},
 		Op{K: "newblk", Ty: "blk", L: lOne}, Op{K: "newblk", Ty: "other", L: lOne}, Op{K: "newblk", Ty: "other", L: lTwo},
@@ -184,10 +184,10 @@ func buildAlphabets() (quick, thorough []Op) {
 		Op{K: "settype", I: 0, Ty: "other"}, Op{K: "setlabels", I: 0, L: lTwo},
 		Op{K: "nl"},
 		Op{K: "copyraw", N: "c", N2: "a"}, Op{K: "copyroot", N: "b", N2: "a"},
-		Op{K: "setv", N: "a", V: "t"}, Op{K: "setv", N: "c", V: "1"},
+		Op{K: "setv", N: "a", V: "t"},
 	)
 	add([]int{0}, false,
-		Op{K: "setraw", N: "c", V: "7"}, Op{K: "setraw", N: "a", V: "7"}, Op{K: "copyraw", N: "a", N2: "b"}, Op{K: "setv", N: "b", V: "1"},
+		Op{K: "setv", N: "c", V: "1"}, Op{K: "setraw", N: "c", V: "7"}, Op{K: "setraw", N: "a", V: "7"}, Op{K: "copyraw", N: "a", N2: "b"}, Op{K: "setv", N: "b", V: "1"},
 		Op{K: "settrav", N: "c"}, Op{K: "ren", N: "a", N2: "b"}, Op{K: "ren", N: "b", N2: "a"}, Op{K: "rm", N: "c"},
 		Op{K: "appblk", Ty: "other"}, Op{K: "rmforeign"},
 	)
